@@ -9,7 +9,7 @@ import json, os, re, subprocess, sys
 
 root = '/verif/seeded'
 # seeded changes that the check of their own property cannot see but another property's check does
-OTHER = {'C05-7': {'check': './bin/vcheck run C09', 'signature': 'C09.race|packet.(*Session).makeOffline <-> packet.(*Session).onlineTransition',
+OTHER = {'C05-7': {'check': './bin/vcheck run C09', 'signature': 'C09.race|packet.(*Session).onlineTransition <-> packet.(*Session).purge (also ... <-> packet.(*Session).makeOffline)',
                    'why': 'the change is a lock released too early: it breaks the C05 invariant only under a concurrent purge; the C05 check is sequential, the concurrent pattern is C09\'s'}}
 res = {}
 for l in open(sys.argv[1]):
